@@ -349,7 +349,7 @@ def run_task(param, acc):
         return
     _, ci, via, mode = param
     cfg = valid_configs()[ci]
-    bound = 1 if acc.tier == 'quick' else 2
+    bound = 2 if acc.tier == 'quick' else 3
     last = None
     for pub in ((80,) if acc.tier == 'quick' else (80, 65535)):
         def run(ch, pub=pub):
@@ -385,8 +385,8 @@ def meta(tier):
              'explicit/implicit directory) x {constructor, Tor.create_*_endpoint} x {config object, Deferred} x every fault path '
              'with <= %d deviations over the steps {config: fails / wrong type; bind: CannotListenError; creating command: 5xx / '
              'connection lost; uploads: all FAILED}; %d invalid option combinations. non-trivial = at least one injected fault'
-             % (len(valid_configs()), 1 if tier == 'quick' else 2, len(invalid_cases())),
-        bounds=dict(configs=len(valid_configs()), deviations=(1 if tier == 'quick' else 2), invalid=len(invalid_cases())),
+             % (len(valid_configs()), 2 if tier == 'quick' else 3, len(invalid_cases())),
+        bounds=dict(configs=len(valid_configs()), deviations=(2 if tier == 'quick' else 3), invalid=len(invalid_cases())),
         assumptions=['filesystem services with client authorization are covered only by the invalid-combination cases',
                      'the reactor assigns local ports from 49000 upwards; tempfile.tempdir points into /verif/.work',
                      'a failure of listen() must carry the injected error for bind / config / rejection faults'])
